@@ -475,7 +475,8 @@ Proof.
       destruct c; (destruct (emb_step _ s) as [x|e|]; [| |exfalso; apply Hnp; reflexivity]);
         unfold alloc_handle; fin_np Hst.
   - (* handle operation *)
-    unfold handle_op. destruct (st_handles st !! h) as [x|] eqn:Ex; [|cbn; auto].
+    destruct (handle_op_cases h o st) as [->| ->]; [cbn; auto|].
+    unfold handle_op0. destruct (st_handles st !! h) as [x|] eqn:Ex; [|cbn; auto].
     pose proof (store_ok_lookup st h x Hst Ex) as Hx.
     destruct o as [n|sf|data| | |dst|].
     + destruct x; cbn; auto.
@@ -510,7 +511,7 @@ Proof.
     destruct (st_fault st) as [[fid k]|]; [destruct (Nat.eqb fid id); [destruct k|]|]; exact Hst.
 Qed.
 
-Lemma store_ok_init bases : store_ok (mkStore bases [] [] None).
+Lemma store_ok_init bases : store_ok (mkStore bases [] [] None IoOff).
 Proof. constructor. Qed.
 
 (** a program whose only source of panics are the replies, run on the real base handler *)
